@@ -214,6 +214,11 @@ class ConcurrentExecutor(ABC, Generic[CallableType, ResultType]):
         self._suspend_exception = None
         self._fatal_exception = None
 
+        # Nothing to run: no task would ever set the completion event (and a pool with
+        # max_workers=0 cannot even be created), so return the empty result right away.
+        if not self.executables_with_state:
+            return self._create_result()
+
         def resubmitter(executable_with_state: ExecutableWithState) -> None:
             """Resubmit a timed suspended task."""
             try:
